@@ -4,6 +4,8 @@ package bbolt
 
 import (
 	"os"
+	"sync"
+	"unsafe"
 
 	"go.etcd.io/bbolt/internal/common"
 	fl "go.etcd.io/bbolt/internal/freelist"
@@ -57,6 +59,54 @@ func verifAttach(db *DB) {
 		}
 		return inner(b, off)
 	}
+}
+
+// VerifMapHook, when non-nil, supplies the memory used as the data file's
+// mapping instead of the mmap system call (the harness keeps it coherent with
+// the file through VerifIOHook). VerifUnmapHook is called when such a mapping
+// is dropped.
+var (
+	VerifMapHook   func(db *DB, sz int) ([]byte, error)
+	VerifUnmapHook func(db *DB, b []byte) error
+
+	verifMappedMu sync.Mutex
+	verifMapped   = map[*DB]bool{}
+)
+
+func verifMap(db *DB, sz int) (bool, error) {
+	h := VerifMapHook
+	if h == nil {
+		return false, nil
+	}
+	b, err := h(db, sz)
+	if err != nil {
+		return true, err
+	}
+	verifMappedMu.Lock()
+	verifMapped[db] = true
+	verifMappedMu.Unlock()
+	db.dataref = b
+	db.data = (*[common.MaxMapSize]byte)(unsafe.Pointer(&b[0]))
+	db.datasz = sz
+	return true, nil
+}
+
+func verifUnmap(db *DB) (bool, error) {
+	verifMappedMu.Lock()
+	mine := verifMapped[db]
+	delete(verifMapped, db)
+	verifMappedMu.Unlock()
+	if !mine {
+		return false, nil
+	}
+	b := db.dataref
+	db.dataref = nil
+	db.data = nil
+	db.datasz = 0
+	if h := VerifUnmapHook; h != nil && b != nil {
+		return true, h(db, b)
+	}
+	return true, nil
 }
 
 // Read-only accessors for the harness.
